@@ -59,6 +59,66 @@ def pair(chk, val, label, big, bmeth, bargs, small, smeth, sargs, zero, assume_s
     chk.identity('%s<%s>' % (label, big.scalar), spec, ls, A, key=label, replay=replay, family=label.split(':')[0])
     val.append((big, bmeth, bargs, lb))
     val.append((small, smeth, sargs, ls))
+    PAIRS.append((label, big, bmeth, bargs, small, smeth, sargs, zero, ls))
+
+
+PAIRS = []
+
+
+def api_level_reductions(chk):
+    """translator/API validation of the reductions (run on every execution, like pde.validate_terms): every pair is evaluated on the real
+    library through TWO handles of one process -- select big; init small; select big; set; evaluate; select small; set; evaluate -- at one
+    generic parameter set with the specialised parameters zero; the two API values must agree.  The identities above are about the
+    evaluators' formulas; this run ties them to what a user of the registry observes."""
+    import random, replay as rp
+    from fractions import Fraction
+    rng = random.Random(chk.seed + 29)
+    steps, checks = [], []
+    for k, (label, big, bmeth, bargs, small, smeth, sargs, zero, ls) in enumerate(PAIRS):
+        if big.scalar != 'double' and chk.tier == 'quick':
+            continue
+        names = sorted(set(big.P) | set(small.P))
+        coords = sorted(set(a.p for a in bargs + sargs))
+        env = pde.rand_env(rng, names, coords)
+        for z in zero:
+            env[z] = Fraction(0)
+        cb, cs = rp.SCALAR_CXX[big.scalar], rp.SCALAR_CXX[small.scalar]
+        hb, hs = 'big%d' % k, 'small%d' % k
+        steps.append(('init', big.scalar, hb, big.name))
+        steps.append(('raw', 'masa_select_mms<%s>("%s");' % (cb, hb)))
+        steps.append(('init', small.scalar, hs, small.name))
+        steps.append(('raw', 'masa_select_mms<%s>("%s");' % (cb, hb)))
+        for n in big.P:
+            steps.append(('set', big.scalar, n, env[n]))
+        steps.append(('eval', big.scalar, pde.api_name(bmeth), [env[a.p] for a in bargs], 'B%d' % k))
+        steps.append(('raw', 'masa_select_mms<%s>("%s");' % (cs, hs)))
+        for n in small.P:
+            steps.append(('set', small.scalar, n, env[n]))
+        steps.append(('eval', small.scalar, pde.api_name(smeth), [env[a.p] for a in sargs], 'S%d' % k))
+        checks.append((k, label, big, bmeth, small, smeth, env, ls))
+    if not checks:
+        return
+    src = rp.driver_source(steps)
+    rc, out, err = chk.lib().run(src)
+    res = rp.parse_results(out)
+    done = 0
+    for k, label, big, bmeth, small, smeth, env, ls in checks:
+        bv, sv = res.get('B%d' % k), res.get('S%d' % k)
+        if bv is None or sv is None or not rp.mp.isfinite(bv) or not rp.mp.isfinite(sv):
+            continue
+        done += 1
+        e = {n_: rp.mp.mpf(v.numerator) / rp.mp.mpf(v.denominator) for n_, v in env.items()}
+        try:
+            M = pde.magnitude(ls, e) + abs(sv)
+        except Exception:
+            M = abs(sv) + abs(bv)
+        if abs(bv - sv) > rp.mp.mpf('1e-6') * M:
+            path = chk.save_replay('api-reduction:' + label, dict(case=label, big=str(bv), small=str(sv), env={n_: str(v) for n_, v in env.items()}), src)
+            chk.report_violation('api-reduction:' + label, path, 'through two handles (select big; init small; select big; ...) %s %s = %s but %s %s = %s' % (
+                big.name, bmeth, rp.mp.nstr(bv, 15), small.name, smeth, rp.mp.nstr(sv, 15)))
+    chk.extra_cov['api_level_reductions_evaluated'] = done
+    if done != len(checks):
+        chk.notes.append('api-level reductions: %d of %d pairs produced finite values' % (done, len(checks)))
 
 
 def body(chk):
@@ -114,6 +174,7 @@ def body(chk):
             seen.add(k)
             items.append(it)
     pde.validate_terms(chk, items, npoints=1 if chk.tier == 'quick' else 3)
+    api_level_reductions(chk)
 
 
 if __name__ == '__main__':
